@@ -1,5 +1,6 @@
 import TWV.Driver.Ops
 import TWV.Driver.Ops2
+import TWV.Driver.Ops3
 
 namespace TWV.Driver
 
@@ -12,6 +13,9 @@ def dispatch (line : String) : String :=
     | none =>
       match dispatch2 op args with
       | some r => r
-      | none => bad
+      | none =>
+        match dispatch3 op args with
+        | some r => r
+        | none => bad
 
 end TWV.Driver
